@@ -208,6 +208,10 @@ func (w *e1World) sigPrefix(o fsx.Op, classes []string) string {
 		if o.Size < 0 {
 			s += "(negative)"
 		}
+	case "Glob":
+		s += "(" + patternShape(o.P) + ")"
+	case "WalkDir":
+		s += fmt.Sprintf("(act%d)", o.Act)
 	}
 
 	// how a path is written (relative, unclean) is not part of what it denotes.
